@@ -682,7 +682,9 @@ class Routing(Stream):
 
 def _sorted_keys(o):
     if isinstance(o, dict):
-        return {k2: _sorted_keys(o[k2]) for k2 in sorted(o)}
+        # `None` and `{}` for a nested option dictionary both mean "nothing supplied for that stage": which of the two an
+        # outer function hands to an inner one is internal forwarding, not an option value
+        return {k2: ({} if (o[k2] is None and str(k2).endswith('_opts')) else _sorted_keys(o[k2])) for k2 in sorted(o)}
     if isinstance(o, list):
         return [_sorted_keys(x) for x in o]
     if isinstance(o, tuple):
